@@ -11,7 +11,9 @@ CONTRACT = ['C01_Fits', 'C01_NoSilentTruncation', 'C02_NoPanic', 'C02_PastEndIsE
 
 def consts(thorough):
     if thorough:
-        return dict(Sizes=set(range(14, 45)), RowLens={0, 1, 3, 5, 9}, MaxRows=5, MaxIdx=7, Tpls={4, 9}, Menus={0, 3, 8}, ErrLens={0, 5}, ValLens={0, 2}, Msinks={False, True})
+        # (measured: MaxRows 5 over sizes 14..44 is 5.9 M configurations, a 7 GB trace and more than 20 GB of memory for the
+        #  orchestrator - it never finished; this universe is about 1 M configurations)
+        return dict(Sizes=set(range(14, 41)), RowLens={0, 1, 3, 5, 9}, MaxRows=4, MaxIdx=7, Tpls={4, 9}, Menus={0, 3, 8}, ErrLens={0, 5}, ValLens={0, 2}, Msinks={False, True})
     return dict(Sizes=set(range(18, 35)), RowLens={0, 1, 3, 5}, MaxRows=4, MaxIdx=6, Tpls={4}, Menus={0, 3}, ErrLens={0, 5}, ValLens={0}, Msinks={False, True})
 
 
